@@ -58,6 +58,7 @@ class AccfgMachine(Interp):
         self.known_accs: set[str] = set()
         self.log_writes = False
         self.loops_done = 0  # loops that completed >=1 iteration so far
+        self.loops_skipped = 0  # loops that were passed with zero iterations so far
         self.loop_depth = 0
         self.hooks = []  # objects with optional on_state_defined(machine, value), on_setup(...), on_launch(...)
         hd = self.handlers
@@ -77,6 +78,8 @@ class AccfgMachine(Interp):
         self.loop_depth -= 1
         if trips is None or trips > 0:
             self.loops_done += 1
+        else:
+            self.loops_skipped += 1
 
     # -- poison ---------------------------------------------------------------------------
     def fresh_poison(self, why):
@@ -127,7 +130,7 @@ class AccfgMachine(Interp):
         vals = tuple(self.get(v) for v in op.values)
         names = tuple(n.data for n in op.param_names.data)
         self.events.append(
-            ("L", acc, tuple(zip(names, vals)), dict(self.regs.setdefault(acc, {})), {"loops_done": self.loops_done, "depth": self.loop_depth})
+            ("L", acc, tuple(zip(names, vals)), dict(self.regs.setdefault(acc, {})), {"loops_done": self.loops_done, "loops_skipped": self.loops_skipped, "depth": self.loop_depth})
         )
         self.set_results(op, [("launchtok", acc, len(self.events))])
 
